@@ -69,7 +69,8 @@ fn connect(w: &mut World, rng: &mut Rng, pools: &mut Pools) -> Option<usize> {
     let (minor, connect2) = match rng.below(10) {
         0 => (14, false),
         1 => (21, true), // negotiated down to 20
-        _ => (14 + rng.below(7) as u32, true),
+        2 | 3 => (14 + rng.below(7) as u32, true),
+        _ => (18 + rng.below(3) as u32, true),
     };
     match w.connect(rng, 1, minor, connect2, None) {
         ConnectOutcome::Connected(i) => {
@@ -106,13 +107,47 @@ fn one_run(args: &Args, rng: &mut Rng, run: u64) -> (Vec<vcore::trace::Item>, se
                 ended.push(false);
             }
         } else if r < 6 + args.fault_pct && !live.is_empty() {
-            let i = *rng.pick(&live);
-            match rng.below(4) {
+            // half of the faults are dropped tasks of connections that are engaged with others
+            if let Some(d) = w.last_dump() {
+                pools.view = broker_drivers::View::from_dump(&d);
+            }
+            let engaged: Vec<usize> = live
+                .iter()
+                .copied()
+                .filter(|&i| {
+                    let id = w.conns[i].id;
+                    let v = &pools.view;
+                    v.call_links.iter().any(|c| c.0 == id || c.2 == id)
+                        || v.subscriptions.iter().any(|x| x.1 == id)
+                        || v.chans.iter().any(|c| c.1 == id || c.2 == id)
+                        || v.listener_owners.iter().any(|l| l.0 == id)
+                })
+                .collect();
+            let drop_engaged = !engaged.is_empty() && rng.chance(1, 2);
+            let i = if drop_engaged { *rng.pick(&engaged) } else { *rng.pick(&live) };
+            match if drop_engaged { 2 } else { rng.below(4) } {
                 0 => {
                     w.send(i, Shutdown.into());
                 }
                 1 => w.close_transport(i),
-                2 => w.drop_conn_task(i),
+                2 => {
+                    // prefer a moment at which the connection is engaged with others, and follow up
+                    // with traffic that makes the broker send to it (it does not know yet)
+                    w.drop_conn_task(i);
+                    if let Some(d) = w.last_dump() {
+                        pools.view = broker_drivers::View::from_dump(&d);
+                    }
+                    let dead = w.conns[i].id;
+                    for _ in 0..(1 + rng.below(3)) {
+                        if rng.chance(3, 4) {
+                            if let Some((j, msg)) = pools.gen_targeting(rng, dead) {
+                                if j < ended.len() && !ended[j] && w.send(j, msg) {
+                                    sent += 1;
+                                }
+                            }
+                        }
+                    }
+                }
                 _ => w.spawn_shutdown_conn(i),
             }
             ended[i] = true;
@@ -137,9 +172,17 @@ fn one_run(args: &Args, rng: &mut Rng, run: u64) -> (Vec<vcore::trace::Item>, se
             if let Some(d) = w.last_dump() {
                 pools.view = broker_drivers::View::from_dump(&d);
             }
+            pools.tick_focus(rng);
             let msg = pools.gen(rng, i, args.profile);
-            if w.send(i, msg) {
+            // items come in bursts (flow control is about sequences on one channel)
+            let burst = if matches!(msg, Message::SendItem(_)) && rng.chance(1, 2) { 1 + rng.below(6) } else { 0 };
+            if w.send(i, msg.clone()) {
                 sent += 1;
+            }
+            for _ in 0..burst {
+                if w.send(i, msg.clone()) {
+                    sent += 1;
+                }
             }
             if rng.chance(3, 5) {
                 if rng.chance(1, 3) {
